@@ -12,6 +12,7 @@ From SV Require Import proofs.TrellisDDPath.
 From SV Require Import proofs.CleanDirs.
 From SV Require Import proofs.CleanOptional.
 From SV Require Import proofs.CleanLinks.
+From SV Require Import proofs.CleanPrune.
 Import ListNotations.
 Open Scope N_scope.
 
@@ -229,6 +230,29 @@ Theorem C07_optional_outputs_removed_any_kind_fixed :
     is_unlinkable (fs_get f (nlabel n)) = true ->
     fs_get (s_fs (finalize c (init_state g f))) (nlabel n) = None.
 Proof. exact optional_outputs_removed_any_kind. Qed.
+
+(* "... together with the directories StepUp created for it that became empty", above the marked directories:
+   _prune_empty_dirs is translated statement by statement (pop the deepest, remove it if it is an empty directory,
+   push its parent; flag prune_visits_once: is a path examined at most once?).  Statement: in a tree as a file system
+   has it (fs_closedb), whenever a directory is removed its parent -- unless that is the project root -- is not left
+   behind as an empty directory; by induction up the tree every ancestor that became empty is gone.
+   The variant with a `seen` set is REFUTED (two sibling directories r/a, r/b below r: r is examined while r/a is
+   still there, and skipped when it is pushed again after r/a went); checked on every run. *)
+Definition C07_emptied_parents_pruned_full : Prop := emptied_parents_pruned false.
+
+Theorem C07_emptied_parents_pruned_seen_set_refuted : ~ emptied_parents_pruned true.
+Proof. exact emptied_parents_pruned_seen_set_refuted. Qed.
+
+Theorem C07_seen_set_variant_is_the_code :
+  prune_visits_once = true -> ~ emptied_parents_pruned prune_visits_once.
+Proof. exact seen_set_variant_is_the_code. Qed.
+
+(* the shape of the loop today: a pushed parent is examined again (regenerated) *)
+Theorem C07_prune_revisits_parents : prune_visits_once = false.
+Proof. exact gen_prune_revisits. Qed.
+
+Example C07_example_siblings : fst (prune_dirs_gen false [sib_ra; sib_rb] sib_fs) = [].
+Proof. exact siblings_pruned_by_the_revisiting_loop. Qed.
 
 (* Non-vacuity: root -> step s (detached) creates step t creates file o, s has o as amended input
    (a cycle s -> t -> o -> s), plus a detached orphan file x. The cycle survives, x is deleted and
